@@ -265,5 +265,5 @@ MUTANTS = [
     Mutant("swallow-all", US, "add_constants", "            except UnitsNotReducible:\n                pass", "            except Exception:\n                pass", ("C15-R5",)),
     Mutant("twin-spelling", RAT, None, "hbar_mks = 0.5 * planck_mks / np.pi", "hbar_mks = planck_mks / (2.0 * np.pi)", (), benign=True),
     Mutant("em-own-family-scaled", UO, "_check_em_conversion", "em_map = (unit_system[unit.dimensions], unit, 1.0)", "em_map = (unit_system[unit.dimensions], unit, em_info[2])", ("C15-R6",)),
-    Mutant("in-base-offset-from-source", "unyt/array.py", "unyt_array.in_base", "        ret = self.v * conv\n        if offset:", "        ret = self.v * conv\n        if self.units.base_offset:", ("C15-R7",)),
+    Mutant("in-base-offset-from-source", "unyt/array.py", "unyt_array.in_base", "        ret = np.asarray(self.ndview * conv, dtype=new_dtype)\n        if offset:", "        ret = np.asarray(self.ndview * conv, dtype=new_dtype)\n        if self.units.base_offset:", ("C15-R7",)),
 ]
